@@ -341,6 +341,7 @@ def judge_msg(c):
     first_add, written, del_req, purged_after, relayed, set_done = {}, {}, set(), set(), {}, set()
     unflushed, purged_gone, f41 = set(), set(), set()
     del_pending, del_flushed, swapped_dels = set(), set(), set()
+    add_count, first_is_add = {}, {}
     bunt = c.engine == "bunt"
 
     def trig(q):
@@ -357,6 +358,9 @@ def judge_msg(c):
         atoms = atoms_of_out(out)
         if t in ("A", "U"):
             q, mid, data = unhex(f[4]), int(f[1]), int(f[2])
+            if t == "A":
+                add_count[(q, mid)] = add_count.get((q, mid), 0) + 1
+            first_is_add.setdefault((q, mid), t == "A")
             first_add.setdefault((q, mid), i)
             written.setdefault((q, mid), set()).add(data)
             unflushed.add((q, mid))
@@ -407,7 +411,8 @@ def judge_msg(c):
         if t == "DUMP":
             keys = {a[1][0] for a in atoms if a[0] == 8}
             for (q, mid) in del_flushed:
-                if doc_msg_key(q, mid).hex() in keys and not bunt:
+                # (ids are unique per message in the broker: a copy Added twice, or Updated before it was Added, is outside the statement)
+                if doc_msg_key(q, mid).hex() in keys and not bunt and add_count.get((q, mid), 0) <= 1 and first_is_add.get((q, mid)):
                     fails.append(dict(pos=i, clause="deleted", what="copy queue=%r id=%d was Del-requested, a later persist completed, it was not added again, yet its key is in the engine" % (q, mid),
                                       triggers=[]))
             for (q, mid) in must:
@@ -646,6 +651,21 @@ def run_msg_pipeline(res, prop, props_v, checker, clauses, plan, iso=False, corp
             what.append("correspondence msgstorage model/implementation differs on %d cases (first: %s)" % (len(bad), cases[bad[0]].line[:300]))
         if bad is None:
             what.append("model runner does not build")
+        if not new:
+            # directed search: the obligation or the correspondence broke but no trace above fails the statement:
+            # many more generated traces (recording engine), judged only (no model involved)
+            for k in range(6):
+                g = dict(seed=res.seed + 1000 + k, n=1200, len=26 if not iso else 12, safe=(k % 2 == 0), iso=iso)
+                extra = [Case("msg", l) for l in run_harness(exe, "msg", "rec", gen=g, work=work)]
+                res.cov["evaluations"] += len(extra)
+                for c in extra:
+                    nf = new_fails(msg_fails(c, clauses, iso))
+                    if nf:
+                        cases.append(c)
+                        new.append((len(cases) - 1, nf))
+                        break
+                if new:
+                    break
         if new:
             i, nf = new[0]
             c = cases[i]
